@@ -3,6 +3,7 @@ package props
 import (
 	"fmt"
 	"github.com/cosmos/gogoproto/proto"
+	valsettypes "github.com/palomachain/paloma/v2/x/valset/types"
 	"math/big"
 	"strings"
 
@@ -114,9 +115,16 @@ func (w *JobWorld) byzRelay(p *Pigeon, chain string, m *consensustypes.MessageWi
 	default:
 		rec = ch.OtherTx(eth, elsewhere, []byte{0xde, 0xad, 0xbe, 0xef})
 	}
+	// the delivery report also names the validator set the transaction was built against: the liar may name one that
+	// does not exist (never created, or pruned)
+	reportedValset := valset.ValsetID
+	if t.Draw(4) == 3 {
+		reportedValset = []uint64{valset.ValsetID + 1000, 999_999, valset.ValsetID + 1}[t.Intn(3)]
+		kind += "+unknown-valset-id"
+	}
 	b.R.Stats.Fault("relayer_lie_" + kind)
 	b.R.Trace.Event("relay-lie", "%s msg=%d by=%s kind=%s status=%d", chain, m.Id, p.V.Acct.Name, kind, rec.Receipt.Status)
-	return p.send("publicaccess", &consensustypes.MsgSetPublicAccessData{Metadata: p.meta(), MessageID: m.Id, QueueTypeName: queueName(chain), Data: rec.Tx.Hash().Bytes(), ValsetID: valset.ValsetID})
+	return p.send("publicaccess", &consensustypes.MsgSetPublicAccessData{Metadata: p.meta(), MessageID: m.Id, QueueTypeName: queueName(chain), Data: rec.Tx.Hash().Bytes(), ValsetID: reportedValset})
 }
 
 // byzEvidence implements Hooks.Evidence for an evidence splitter.
@@ -317,6 +325,57 @@ func (w *JobWorld) byzSign(vi int) {
 	}
 	var sigs []*consensustypes.ConsensusMessageSignature
 	kind := ""
+	if t.Draw(5) == 4 {
+		// rotate the key registered for the chain, then sign a message this validator has already signed once more
+		// with the new key (a validator must appear once per message, whatever key it uses)
+		for _, id := range SortedIDs(w.Cur) {
+			cq := w.Cur[id]
+			if cq.Chain != chain || cq.Msg == nil {
+				continue
+			}
+			mine := false
+			for _, sd := range cq.Raw.SignData {
+				if sd.ValAddress.Equals(p.V.Acct.Addr) {
+					mine = true
+				}
+			}
+			if !mine {
+				continue
+			}
+			if rot := w.rotated[vi]; rot == nil || rot[chain] == nil {
+				nk := world.NewEthKey(w.R.Seed, fmt.Sprintf("rotated-%d-%s", vi, chain))
+				var list []*valsettypes.ExternalChainInfo
+				for _, c := range w.Order {
+					k := p.V.Eth[c]
+					if c == chain {
+						k = nk
+					}
+					list = append(list, &valsettypes.ExternalChainInfo{ChainType: "evm", ChainReferenceID: c, Address: k.Addr.Hex(), Pubkey: k.Addr.Bytes()})
+				}
+				if p.send("chaininfo", &valsettypes.MsgAddExternalChainInfoForValidator{Metadata: p.meta(), ChainInfos: list}) {
+					if w.rotated == nil {
+						w.rotated = map[int]map[string]*world.EthKey{}
+					}
+					if w.rotated[vi] == nil {
+						w.rotated[vi] = map[string]*world.EthKey{}
+					}
+					w.rotated[vi][chain] = nk
+					w.Registered[vi][chain] = append(w.Registered[vi][chain], nk.Addr)
+					p.V.Eth[chain] = nk // from now on the relayer uses the new key
+					w.R.Stats.Fault("byzantine_key_rotation")
+					w.R.Trace.Event("byz-rotate", "%s %s -> %s", p.V.Acct.Name, chain, nk.Addr.Hex())
+				}
+				return
+			}
+			nk := w.rotated[vi][chain]
+			again := &consensustypes.ConsensusMessageSignature{Id: id, QueueTypeName: q, Signature: nk.SignEthMessage(cq.Bytes), SignedByAddress: nk.Addr.Hex()}
+			if p.send("byz-sign", &consensustypes.MsgAddMessagesSignatures{Metadata: p.meta(), SignedMessages: []*consensustypes.ConsensusMessageSignature{again}}) {
+				w.R.Stats.Fault("byzantine_signature")
+				w.R.Trace.Event("byz-sign", "%s msg=%d second signature with the rotated key", p.V.Acct.Name, id)
+			}
+			return
+		}
+	}
 	switch t.Intn(6) {
 	case 0:
 		sigs, kind = append(sigs, sig(stray, m.BytesToSign, own.Addr)), "stray key, registered address claimed"
@@ -346,4 +405,34 @@ func (w *JobWorld) byzSign(vi int) {
 		w.R.Stats.Fault("byzantine_signature")
 		w.R.Trace.Event("byz-sign", "%s msg=%d %s", p.V.Acct.Name, m.Id, kind)
 	}
+}
+
+// reAttest lets a validator send evidence once more for a message it has already attested: the same proof again (a retry)
+// or another one (a correction). Only its latest submission may count, and it may count once.
+func (w *JobWorld) reAttest(vi int) bool {
+	t := w.T
+	p := w.Pigeons[vi]
+	if p.Down {
+		return false
+	}
+	for _, id := range SortedIDs(w.Cur) {
+		q := w.Cur[id]
+		for _, e := range q.Raw.Evidence {
+			if !e.ValAddress.Equals(p.V.Acct.Addr) {
+				continue
+			}
+			proof := e.Proof
+			kind := "same proof again"
+			if t.Draw(2) == 1 {
+				proof = mustAny(&evmtypes.SmartContractExecutionErrorProof{ErrorMessage: fmt.Sprintf("corrected-%d", t.Intn(3))})
+				kind = "another proof"
+			}
+			if p.send("evidence", &consensustypes.MsgAddEvidence{Metadata: p.meta(), Proof: proof, MessageID: id, QueueTypeName: q.Queue}) {
+				w.R.Stats.Fault("evidence_resubmitted")
+				w.R.Trace.Event("re-attest", "%s msg=%d %s", p.V.Acct.Name, id, kind)
+				return true
+			}
+		}
+	}
+	return false
 }
